@@ -1,10 +1,11 @@
 (* C16 — the order of the one-after-the-other rewriting of the argument string.
    The code replaces the references one re.sub after the other.  That equals the simultaneous substitution
-   ([simul]: every word that is a reference becomes the replacement of THAT reference) when the references are
-   visited longest spelling first: a reference that is visited earlier is at least as long as the word and
-   different from it, so it does not occur in it; the word is then replaced by its own replacement, in which no
-   reference occurs.  Shortest first (or any order that visits a \b-delimited tail of a reference before the
-   reference) is refuted in Refuted.v. *)
+   ([simul]: every word that is a reference becomes the replacement of THAT reference) when no reference is
+   visited before a different reference in which it occurs ([ordered]): no earlier reference then occurs in the
+   word, the word is replaced by its own replacement, in which no reference occurs ([inert]).  Longest spelling
+   first is such an order: a reference visited earlier is at least as long as the word and different from it.
+   Shortest first (or any order that visits a \b-delimited tail of a reference before the reference), the code's
+   sort key and the fuzzy replacement (not inert) are refuted in Refuted.v. *)
 From Coq Require Import String Ascii List Bool Arith Lia Permutation.
 Import ListNotations.
 Require Import V.Lib.PyStr V.Lib.JTree V.Memo.Model V.Memo.Proofs V.Memo.Regex.
